@@ -24,12 +24,44 @@ BINARIES = {
     "sflowc": ("zzverif/cmd/sflowc", False),
     "c20": ("zzverif/cmd/c20", False),
     "cachefile": ("zzverif/cmd/cachefile", False),
+    "c10": ("zzverif/cmd/c10", True),
 }
+
+
+# instrumented copies (tools/goinstr) that replace package files in the overlay: name -> [(package dir, [files], rename-main)]
+INSTRUMENT = {
+    "c10": [("ipfix", ["memcache.go"], None), ("netflow/v9", ["memcache.go"], None)],
+}
+
+
+def instrument(name):
+    """Run the AST instrumenter on the CURRENT working tree files; returns overlay entries."""
+    tool = os.path.join(orch.BUILD, "bin", "goinstr")
+    src = os.path.join(orch.VERIF, "tools", "goinstr", "main.go")
+    if not os.path.exists(tool) or os.path.getmtime(tool) < os.path.getmtime(src):
+        os.makedirs(os.path.dirname(tool), exist_ok=True)
+        r = subprocess.run(["go", "build", "-o", tool, src], env=orch.GOENV, stdout=subprocess.PIPE, stderr=subprocess.STDOUT, text=True)
+        if r.returncode != 0:
+            raise MachineryError("goinstr build failed:\n" + r.stdout)
+    extra = {}
+    for pkg, files, rename in INSTRUMENT.get(name, []):
+        outd = os.path.join(orch.BUILD, "instr", name, pkg)
+        os.makedirs(outd, exist_ok=True)
+        cmd = [tool, "-out", outd]
+        if rename:
+            cmd += ["-rename-main", rename]
+        cmd += [os.path.join(orch.REPO, pkg, f) for f in files]
+        r = subprocess.run(cmd, stdout=subprocess.PIPE, stderr=subprocess.STDOUT, text=True)
+        if r.returncode != 0:
+            raise MachineryError("instrumenter rejected %s: %s" % (pkg, r.stdout))
+        for f in files:
+            extra[os.path.join(orch.REPO, pkg, f)] = os.path.join(outd, f)
+    return extra
 
 
 def build(name):
     pkg, race = BINARIES[name]
-    return go_build(name, pkg, race=race)
+    return go_build(name, pkg, race=race, extra_overlay=instrument(name))
 
 
 @check("C19")
@@ -283,6 +315,36 @@ def c11(tier):
                                "for byte/structure corruptions only 'never crashes' and 'usable' are demanded (a corrupted but valid document has no saved cache to be a subset of)",
                                "an unreadable file cannot be produced as root; absent/directory stand in for it"],
                   extra_cov={"write_model": models}, t0=t0)
+
+
+def sched_env(tag):
+    d = os.path.join(orch.BUILD, "sched_" + tag)
+    import shutil
+    shutil.rmtree(d, ignore_errors=True)
+    os.makedirs(d, exist_ok=True)
+    return d, {"GORACE": "log_path=%s/race halt_on_error=0" % d, "VERIF_TMP": d, "GOMAXPROCS": "4"}
+
+
+SCHED_ASSUME = ["scheduling points: every lock/unlock, channel operation, select, atomic, pool Get/Put, go statement, sleep, socket read; code between two points runs atomically (sound for race-free code; unsynchronized accesses are caught by the race detector in the same executions)",
+                "the baton is passed by raw futex calls inside //go:norace functions, so the race detector's happens-before graph holds only the program's own edges (shims perform the real sync operation after the point)",
+                "determinism gate: the first 12 schedules of every scenario are replayed from their recorded choices and must observe the same log; a replay divergence aborts the check with exit 2"]
+
+
+@check("C10")
+def c10(tier):
+    t0 = time.time()
+    b = build("c10")
+    d, env = sched_env("c10")
+    res = [run_space(b, "cache.sched", tier, env=env, hang_s=120)]
+    import shutil
+    shutil.rmtree(d, ignore_errors=True)
+    r = res[0]
+    return finish("C10", tier, res,
+                  rule="36 scenarios (11 three-thread combinations x {empty cache, template pre-announced}, IPFIX and NetFlow v9 where applicable) of: decoder announcing v1 then v2 for key k, decoder sending data for k twice, decoder announcing for another exporter in the same / another shard, second announcer, Dump + load back, peer IRPC.Get x2, peer-fetched insert; "
+                       "all schedules with at most 2 (thorough 3) preemptions, depth-first. Per execution: no panic, no race report, call/return history linearizable w.r.t. a per-key register (brute force over all orders consistent with real time), every lookup returns none or a complete announced template of that key, every dump loads back as complete announced templates. "
+                       "states = executions (complete schedules), transitions = scheduling steps; non-trivial = distinct observation logs per scenario.",
+                  assumptions=SCHED_ASSUME + ["3 threads, <=2 operations each; template versions have equal record length and different field lists so the version used is visible"],
+                  extra_cov={"executions": r.extra.get("executions", 0), "distinct_observation_logs": r.extra.get("distinct_observation_logs", 0), "preemption_bound": 3 if tier == "thorough" else 2}, t0=t0)
 
 
 def main(argv):
